@@ -27,8 +27,8 @@ META = {
     'bounds': 'one handler declaration over the alphabet: labels/annotations criterion in {none,"x",PRESENT,ABSENT,callback==x,'
               'callback is-None}; field in {none, spec.f}; value/old/new in {none,"x",PRESENT,ABSENT,callback==x}; when in '
               '{none,true,false}; decorator in {create, update, field, delete, resume}; object label/annotation in {absent,"x","y"}; '
-              'old/new field value in {absent,"x","y"}; unrelated change yes/no; duplicate registration same/different id.',
-    'outside': 'several criteria keys per handler, nested field paths > 2, callbacks with side effects, resource selectors '
+              'old/new field value in {absent,"x","y"}; unrelated change yes/no; duplicate registration same/different id; optionally a second label/annotation criterion of the same filter.',
+    'outside': 'more than two criteria keys per filter, nested field paths > 2, callbacks with side effects, resource selectors '
                '(a concrete matching selector is used), random larger declarations',
     'stubs': ['api.patch -> FakeServer (H2)'],
     'assumptions': ['docs/filters.rst is the specification of matching'],
@@ -94,13 +94,17 @@ def spec_match(kind, lc, ac, use_field, vc, oc, nc, when, label, ann, old_f, new
     return spec_value(v_eff, new_f)
 
 
-def build(kind, lc, ac, use_field, vc, oc, nc, when, dup):
+def build(kind, lc, ac, use_field, vc, oc, nc, when, dup, lc2=0, ac2=0):
     registry = registries.OperatorRegistry()
     kw = {}
     if lc:
         kw['labels'] = {'l': crit(lc)}
+    if lc2:
+        kw.setdefault('labels', {})['l2'] = crit(lc2)
     if ac:
         kw['annotations'] = {'a': crit(ac)}
+    if ac2:
+        kw.setdefault('annotations', {})['a2'] = crit(ac2)
     if when:
         kw['when'] = (lambda **_: True) if when == 1 else (lambda **_: False)
     if use_field:
@@ -126,7 +130,7 @@ def build(kind, lc, ac, use_field, vc, oc, nc, when, dup):
     return registry
 
 
-def make_cause(kind, label, ann, old_f, new_f, other_changed):
+def make_cause(kind, label, ann, old_f, new_f, other_changed, label2=ABSENT, ann2=ABSENT):
     def ess(f, other):
         e = {'spec': {'other': other}}
         if f != ABSENT:
@@ -134,8 +138,12 @@ def make_cause(kind, label, ann, old_f, new_f, other_changed):
         m = {}
         if label != ABSENT:
             m['labels'] = {'l': label}
+        if label2 != ABSENT:
+            m.setdefault('labels', {})['l2'] = label2
         if ann != ABSENT:
             m['annotations'] = {'a': ann}
+        if ann2 != ABSENT:
+            m.setdefault('annotations', {})['a2'] = ann2
         if m:
             e['metadata'] = m
         return e
@@ -150,11 +158,11 @@ def make_cause(kind, label, ann, old_f, new_f, other_changed):
 
 
 def h_match(lc: int, ac: int, use_field: bool, vc: int, oc: int, nc: int, when: int, dup: int,
-            label: int, ann: int, old_f: int, new_f: int, other_changed: bool) -> bool:
+            label: int, ann: int, old_f: int, new_f: int, other_changed: bool, label2: int, ann2: int) -> bool:
     """
     pre: 0 <= lc <= 5 and 0 <= ac <= 5 and 0 <= vc <= 5 and 0 <= oc <= 5 and 0 <= nc <= 5
     pre: 0 <= when <= 2 and 0 <= dup <= 2
-    pre: 0 <= label <= 2 and 0 <= ann <= 2 and 0 <= old_f <= 3 and 0 <= new_f <= 3
+    pre: 0 <= label <= 2 and 0 <= ann <= 2 and 0 <= old_f <= 3 and 0 <= new_f <= 3 and 0 <= label2 <= 2 and 0 <= ann2 <= 2
     post: _ == True
     """
     vkopf.begin_path()
@@ -163,6 +171,11 @@ def h_match(lc: int, ac: int, use_field: bool, vc: int, oc: int, nc: int, when: 
     lc, when, dup = vkopf.pin('lc', lc), vkopf.pin('when', when), vkopf.pin('dup', dup)
     ac, use_field = vkopf.pin('ac', ac), vkopf.pin('use_field', use_field)
     vc, oc, nc = vkopf.pin('vc', vc), vkopf.pin('oc', oc), vkopf.pin('nc', nc)
+    lc2, ac2 = c.get('lc2', 0), c.get('ac2', 0)      # a second criterion of the same filter (declared after the first)
+    if not lc2:
+        label2 = 0
+    if not ac2:
+        ann2 = 0
     if vc and (oc or nc):
         return True          # value= is mutually exclusive with old=/new= (rejected by the decorator)
     if kind == 0 and (oc or nc):
@@ -181,10 +194,12 @@ def h_match(lc: int, ac: int, use_field: bool, vc: int, oc: int, nc: int, when: 
         return True
     if c.get('only_f9') and not f9:
         return True
-    registry = build(kind, lc, ac, use_field, vc, oc, nc, when, dup)
-    cause = make_cause(kind, META_VALS[label], META_VALS[ann], VALS[old_f], VALS[new_f], other_changed)
+    registry = build(kind, lc, ac, use_field, vc, oc, nc, when, dup, lc2, ac2)
+    cause = make_cause(kind, META_VALS[label], META_VALS[ann], VALS[old_f], VALS[new_f], other_changed, META_VALS[label2], META_VALS[ann2])
     got = sorted(h.id.split('/')[0] for h in registry._changing.get_handlers(cause))
     want_one = spec_match(kind, lc, ac, use_field, vc, oc, nc, when, META_VALS[label], META_VALS[ann], VALS[old_f], VALS[new_f], other_changed)
+    # "the resource must satisfy all of the criteria" -- every key of labels=/annotations=
+    want_one = want_one and spec_value(lc2, META_VALS[label2]) and spec_value(ac2, META_VALS[ann2])
     want = [] if not want_one else (['h', 'h2'] if dup == 2 else ['h'])
     if want:
         vkopf.witness('matched')
@@ -207,6 +222,14 @@ def obligations():
              (2, 0, 0, True, 0, 2, 3, 0, 0), (2, 4, 2, True, 4, 0, 0, 0, 2), (2, 0, 0, True, 0, 0, 5, 1, 0)]
     for q in quick:
         obs.append(cell(*q, tiers=('quick',)))
+    # two criteria in one filter: the second one counts whatever the first one says (callback first, and the other way round)
+    obs.append(cell(1, 4, 0, False, 0, 0, 0, 0, 0, tiers=('quick',), extra={'lc2': 1}))
+    obs.append(cell(0, 1, 5, False, 0, 0, 0, 0, 0, tiers=('quick',), extra={'lc2': 5, 'ac2': 3}))
+    for kind in (0, 1):
+        for lc in (1, 2, 3, 4, 5):
+            for lc2 in (1, 3, 4):
+                obs.append(cell(kind, lc, 0, False, 0, 0, 0, 0, 0, tiers=('thorough',), extra={'lc2': lc2}))
+                obs.append(cell(kind, 0, lc, False, 0, 0, 0, 0, 0, tiers=('thorough',), extra={'ac2': lc2}))
     obs.append(Ob('h_match', {'kind': 1}, tiers=('quick', 'thorough'), timeout=300, twins=['matched', 'rejected'], main=False))
     fields = [(vc, 0, 0) for vc in range(6)] + [(0, oc, nc) for oc in range(6) for nc in range(6) if oc or nc]
     for kind in (0, 1, 2):
